@@ -13,7 +13,9 @@ vars == <<l, cur>>
 KindOK(e) == e.kind \in {"cg", "bicg", "bicgstab", "qmr"} /\ e.itol \in {1, 2}
 SameSeq(x, y) == Len(x) = Len(y) /\ \A i \in 1..Len(x) : x[i] = y[i]
 AllZeroBits(x) == \A i \in 1..Len(x) : x[i] = "0000000000000000"
-IterBound(n) == 4 * n + 40
+\* iteration guard, calibrated on the unchanged tree with the >= 2x rule: 4n+40 (worst observation 0.464 x); on the strongly
+\* non-normal upwind family "upw" 10n+100 (worst observation 1.054 x (4n+40) = 0.43 x (10n+100), a single BiCG near-breakdown)
+IterBound(e) == IF e.fam = "upw" THEN 10 * e.n + 100 ELSE 4 * e.n + 40
 
 \* ---- C08 ----
 \* Ok(k) => k <= budget, x finite, true relative residual within tol + drift (res_units counts drifts).
@@ -37,7 +39,7 @@ Prefix(e) == /\ cur.cid = e.cid /\ cur.ok /\ cur.k = e.k /\ cur.xh = e.xh
 \* well-posed system (provable condition bound): success, O(n) iterations, agreement with the dense solution
 Conv(e) == /\ KindOK(e) /\ e.claimed
            /\ ~e.panic /\ e.ok /\ e.x_finite
-           /\ e.k <= e.budget /\ e.k <= IterBound(e.n)
+           /\ e.k <= e.budget /\ e.k <= IterBound(e)
            /\ (e.kind = "cg" => e.k <= e.cgb)
            /\ e.agree_units <= 1
 \* exact initial guess (true residual exactly zero): Ok(0) and x bit-identical
